@@ -51,6 +51,8 @@ type Thread struct {
 	Local   any    // harness-owned per-thread slot
 	live    *int32 // goroutines of this thread's execution that have not finished unwinding
 	pk      parker
+	Sym     string // symmetry class: identical threads that have not taken their first step start in id order
+	boot    int // >0: a freshly spawned daemon that is still running to its first blocking operation (steps left)
 }
 
 func (t *Thread) ID() int { return t.id }
@@ -65,6 +67,23 @@ type Event struct {
 	armed    bool
 	period   int64
 	inAct    bool
+}
+
+// spinLimit: consecutive steps after which a running thread is passed over if another thread is enabled.
+const spinLimit = 2000
+
+// spinRepeat: a thread that reaches the same scheduling point (operation and calling function) this many times
+// without any other thread taking a step in between is taken to be in a retry loop.
+const spinRepeat = 12
+
+var runLabels = map[string]int{}
+
+//go:norace
+func spinning() bool {
+	if last < 0 || last >= len(threads) {
+		return false
+	}
+	return runLabels[threads[last].label] >= spinRepeat
 }
 
 const (
@@ -88,6 +107,8 @@ var (
 	cfg      *Config
 	staleCnt int32
 	stepCap  int
+	noBranch bool // set by Quiesce: the rest of the execution takes the canonical choice everywhere, unrecorded
+	consec   int // consecutive steps of the running thread
 	blockedSince int64
 	curLive  *int32
 	// LeakedExecs counts executions whose goroutines had not all unwound when the next one started.
@@ -111,6 +132,7 @@ type Point struct {
 type Exec struct {
 	Points    []Point
 	Deadlock  bool
+	ForcedYields int // times the fairness rule passed over a thread that ran spinLimit consecutive steps
 	Starved   bool // Deadlock was declared because every worker stayed blocked for StarveNS of virtual time
 	Horizon   bool
 	Blocked   []string // labels of blocked non-daemon threads at deadlock
@@ -140,6 +162,7 @@ type Config struct {
 	Probe     func(name string, a ...any)
 	OnPoint   func() // observation hook run by the scheduler at every decision (all threads are parked)
 	NoRecord  bool   // do not record decision points (sequential harnesses that never branch; choice 0 everywhere)
+	EnvIdle   bool   // environment events (timers) are offered only when no thread can run (harnesses that drive timer ticks from an explicit environment thread)
 	StarveNS  int64  // virtual time all worker threads may stay blocked while only timers/daemons run (default 600 s)
 }
 
@@ -315,7 +338,24 @@ func decide() int32 {
 		if exec.Steps&63 == 0 {
 			compact()
 		}
+		// A freshly spawned background goroutine (daemon spawn site) runs straight to its first blocking operation:
+		// its start-up is not interleaved with other threads (no choice point). This keeps listener start-up from
+		// multiplying the schedules; what a listener does after its first wait is scheduled like any thread.
+		if bt := bootThread(); bt != nil {
+			bt.boot--
+			bt.steps++
+			if cfg.TraceOn {
+				exec.Trace = append(exec.Trace, fmt.Sprintf("t%d:%s (start-up)", bt.id, bt.label))
+			}
+			if bt.id != last {
+				consec = 0
+				runLabels = map[string]int{}
+			}
+			last = bt.id
+			return int32(bt.id)
+		}
 		var progs, envs []int
+		var symSeen map[string]bool
 		lastEnabled := false
 		alldone := true
 		workerEnabled := false
@@ -329,6 +369,16 @@ func decide() int32 {
 			if t.obj == nil || t.obj.VrtReady(t.kind) {
 				if !t.daemon {
 					workerEnabled = true
+				}
+				if t.Sym != "" && t.kind == KStart && t.steps == 0 {
+					// symmetry reduction: among identical, not yet started threads only the lowest id may start
+					if symSeen == nil {
+						symSeen = map[string]bool{}
+					}
+					if symSeen[t.Sym] {
+						continue
+					}
+					symSeen[t.Sym] = true
 				}
 				if t.id == last {
 					lastEnabled = true
@@ -370,6 +420,21 @@ func decide() int32 {
 		if len(envs) > 1 {
 			sort.Ints(envs)
 		}
+		// Fairness: code under test contains retry loops without a blocking operation (e.g. SummonSwamp re-reading
+		// the swamp map until the closing instance has been removed). A thread that has run spinLimit consecutive
+		// steps while others could run is passed over once, so such a loop cannot starve the thread it waits for.
+		if lastEnabled && len(progs) > 0 && (consec >= spinLimit || spinning()) {
+			// The spinning thread is not offered at this decision at all: letting it continue would only repeat
+			// iterations of its retry loop (a stuttering step), and offering it as a free alternative makes the
+			// explorer unroll the loop.
+			lastEnabled = false
+			consec = 0
+			runLabels = map[string]int{}
+			exec.ForcedYields++
+			if cfg.TraceOn {
+				exec.Trace = append(exec.Trace, fmt.Sprintf("forced-yield: progs=%v prefixlen=%d points=%d", progs, len(prefix), len(exec.Points)))
+			}
+		}
 		anyProg := lastEnabled || len(progs) > 0
 		if !anyProg && len(envs) == 0 {
 			exec.Deadlock = true
@@ -394,6 +459,9 @@ func decide() int32 {
 			cost = append(cost, c)
 		}
 		for _, id := range envs {
+			if cfg.EnvIdle && anyProg {
+				break
+			}
 			alt = append(alt, -1000-id)
 			c := int8(0)
 			if anyProg {
@@ -402,7 +470,7 @@ func decide() int32 {
 			cost = append(cost, c)
 		}
 		c := 0
-		if len(alt) > 1 {
+		if len(alt) > 1 && !noBranch {
 			i := len(exec.Points)
 			if i < len(prefix) {
 				c = prefix[i]
@@ -434,6 +502,13 @@ func decide() int32 {
 		if cfg.TraceOn {
 			exec.Trace = append(exec.Trace, fmt.Sprintf("t%d:%s", t.id, t.label))
 		}
+		if a == last {
+			consec++
+		} else {
+			consec = 0
+			runLabels = map[string]int{}
+		}
+		runLabels[t.label]++
 		last = a
 		return int32(a)
 	}
@@ -468,6 +543,19 @@ func compact() {
 		actE[i] = nil
 	}
 	actE = actE[:k]
+}
+
+//go:norace
+func bootThread() *Thread {
+	for _, t := range actT {
+		if t.boot > 0 && !t.done {
+			if t.obj == nil || t.obj.VrtReady(t.kind) {
+				return t
+			}
+			t.boot = 0 // reached its first blocking operation
+		}
+	}
+	return nil
 }
 
 //go:norace
@@ -557,6 +645,9 @@ func (e *Event) Armed() bool { return e.armed }
 //go:norace
 func spawn(fn func(), daemon bool, name string) *Thread {
 	t := &Thread{id: len(threads), gen: gen, kind: KStart, label: "start", daemon: daemon, Name: name, pk: newParker()}
+	if daemon && name == "" {
+		t.boot = 64
+	}
 	if cfg != nil && cfg.NoPreempt != nil {
 		t.npre = true
 	}
@@ -629,6 +720,16 @@ func Go(name string, f func()) *Thread {
 	return spawn(f, false, name)
 }
 
+// GoSym spawns a worker that belongs to a class of identical threads (same program, interchangeable): the scheduler
+// lets unstarted members of a class start in id order only.
+//
+//go:norace
+func GoSym(name, sym string, f func()) *Thread {
+	t := Go(name, f)
+	t.Sym = sym
+	return t
+}
+
 //go:norace
 func GoDaemon(name string, f func()) *Thread {
 	if !Managed() {
@@ -699,6 +800,9 @@ func RunOnce(c *Config, pfx []int, body func()) *Exec {
 	resetChans()
 	nowNS = 0
 	blockedSince = 0
+	noBranch = false
+	consec = 0
+	runLabels = map[string]int{}
 	prefix = pfx
 	exec = &Exec{}
 	last = -1
@@ -780,6 +884,7 @@ type Explorer struct {
 	// Shard restricts level-1 subtrees: only alternatives whose running index %ShardN == Shard are explored.
 	Shard, ShardN int
 	altCounter    int
+	unowned       int // executions run only to discover deeper levels (counted by shard 0)
 }
 
 // Run explores every schedule with at most Cfg.Bound deviations (iteratively 0..Bound when iterative is set).
@@ -797,7 +902,7 @@ func (e *Explorer) capped() bool {
 	if e.Stats.Capped {
 		return true
 	}
-	if (e.MaxExecs > 0 && e.Stats.Execs >= e.MaxExecs) || (e.Stop != nil && e.Stats.Execs%16 == 0 && e.Stop()) {
+	if (e.MaxExecs > 0 && e.Stats.Execs >= e.MaxExecs) || (e.Stop != nil && (e.Stats.Execs+e.unowned)%16 == 0 && e.Stop()) {
 		e.Stats.Capped = true
 	}
 	return e.Stats.Capped
@@ -808,27 +913,36 @@ func (e *Explorer) rec(pfx []int, pfxCost int, depth int) {
 		return
 	}
 	x := RunOnce(&e.Cfg, pfx, e.Body)
-	e.Stats.Execs++
-	if len(x.Points) > e.Stats.MaxPoints {
-		e.Stats.MaxPoints = len(x.Points)
-	}
-	if x.Steps > e.Stats.MaxSteps {
-		e.Stats.MaxSteps = x.Steps
-	}
-	if x.MaxThread > e.Stats.MaxThreads {
-		e.Stats.MaxThreads = x.MaxThread
-	}
-	if x.Deadlock {
-		e.Stats.Deadlocks++
-	}
-	if x.Horizon {
-		e.Stats.Horizons++
-	}
-	if x.Diverged != "" {
-		e.Stats.Diverged++
-	}
-	if e.Check != nil {
-		e.Check(x)
+	// With sharding, the executions of the first two levels (the root and its children) are run by every shard -
+	// they are needed to discover the third level, whose subtrees are dealt out round-robin - but they are counted
+	// and checked by shard 0 only.
+	const shardDepth = 1
+	owned := e.ShardN <= 1 || depth > shardDepth || e.Shard == 0
+	if owned {
+		e.Stats.Execs++
+		if len(x.Points) > e.Stats.MaxPoints {
+			e.Stats.MaxPoints = len(x.Points)
+		}
+		if x.Steps > e.Stats.MaxSteps {
+			e.Stats.MaxSteps = x.Steps
+		}
+		if x.MaxThread > e.Stats.MaxThreads {
+			e.Stats.MaxThreads = x.MaxThread
+		}
+		if x.Deadlock {
+			e.Stats.Deadlocks++
+		}
+		if x.Horizon {
+			e.Stats.Horizons++
+		}
+		if x.Diverged != "" {
+			e.Stats.Diverged++
+		}
+		if e.Check != nil {
+			e.Check(x)
+		}
+	} else {
+		e.unowned++
 	}
 	cost := pfxCost
 	for i := len(pfx); i < len(x.Points); i++ {
@@ -841,7 +955,7 @@ func (e *Explorer) rec(pfx []int, pfxCost int, depth int) {
 			if e.Cfg.Bound >= 0 && c > e.Cfg.Bound {
 				continue
 			}
-			if depth == 0 && e.ShardN > 1 {
+			if depth == shardDepth && e.ShardN > 1 {
 				e.altCounter++
 				if e.altCounter%e.ShardN != e.Shard {
 					continue
@@ -931,3 +1045,39 @@ func Drain() {
 	}
 	Sched(KYield, &drainWait{cur}, "drain")
 }
+
+// FireNextTimers fires, from the calling managed thread, every armed timed event that carries the earliest
+// deadline (the virtual clock jumps to it). Harness "environment" threads use it so that a timer tick is an ordinary
+// thread step whose position among the other threads' steps is explored like any other.
+//
+//go:norace
+func FireNextTimers() int {
+	if !Managed() {
+		return 0
+	}
+	Sched(KYield, nil, "fire-timers")
+	minDL := int64(-1)
+	for _, e := range actE {
+		if e.armed && e.timed && (minDL < 0 || e.deadline < minDL) {
+			minDL = e.deadline
+		}
+	}
+	if minDL < 0 {
+		return 0
+	}
+	n := 0
+	for _, e := range append([]*Event(nil), actE...) {
+		if e.armed && e.timed && e.deadline == minDL {
+			fireEvent(e)
+			n++
+		}
+	}
+	return n
+}
+
+// Quiesce tells the scheduler that the explored part of the execution is over (all client threads have been
+// joined): what follows (shutdown, restart, final reads) runs with the canonical choice at every decision and adds no
+// choice points.
+//
+//go:norace
+func Quiesce() { noBranch = true }
